@@ -2,10 +2,16 @@ package main
 
 import (
 	"context"
+	"errors"
+	"fmt"
 	"io"
 	"net/http"
+	"os"
+	"os/exec"
+	"path/filepath"
 	"sort"
 	"strconv"
+	"strings"
 	"sync"
 	"sync/atomic"
 	"time"
@@ -423,10 +429,154 @@ func execCallbacks(in val.V) val.V {
 	if in.At(0).Num() == 0 {
 		return execCallbacksSeq(in)
 	}
+	if in.At(0).Num() == 2 {
+		return execCallbacksRace(in)
+	}
 	if in.At(1).Num() == 0 {
 		return execCallbacksBlock(in)
 	}
 	return execCallbacksStorm(in)
+}
+
+// ---- kind 2: the same scenarios under the race detector ---------------------------
+//
+//   input  : (n2 n<seed>)
+//   output : (n0) no data race reported | (n1) the race detector reported a data race
+//            | (n2) the race-enabled run failed otherwise
+// A race-enabled copy of this harness is built (go build -race, same tags and module file as the
+// binary bin/check built) and run as a child process on concurrent scenarios and on histories
+// whose operations happen from another goroutine while connected.  When the race detector is
+// not available here (no cgo toolchain) the generator does not emit this case and says so in
+// the input distribution.
+
+func raceRoot() string {
+	exe, err := os.Executable()
+	if err != nil {
+		return "."
+	}
+	return filepath.Dir(filepath.Dir(exe))
+}
+
+func raceEnv() []string {
+	env := os.Environ()
+	has := func(k string) bool { return os.Getenv(k) != "" }
+	for _, kv := range [][2]string{{"GOFLAGS", "-mod=mod"}, {"GOPROXY", "off"}, {"GOSUMDB", "off"}, {"GOTOOLCHAIN", "local"}} {
+		if !has(kv[0]) {
+			env = append(env, kv[0]+"="+kv[1])
+		}
+	}
+	if !has("GOCACHE") {
+		env = append(env, "GOCACHE="+filepath.Join(raceRoot(), ".work", "gocache"))
+	}
+	return env
+}
+
+var raceBuilt bool
+
+// buildRaceHarness builds .work/impl-run-race (once per process); the error text is empty on success.
+func buildRaceHarness() (string, string) {
+	root := raceRoot()
+	out := filepath.Join(root, ".work", "impl-run-race")
+	if raceBuilt {
+		return out, ""
+	}
+	args := []string{"build", "-race"}
+	if repo := os.Getenv("VERIF_REPO"); repo != "" {
+		if rp, err := filepath.EvalSymlinks(repo); err == nil && rp != "/repo" {
+			args = append(args, "-modfile="+filepath.Join(root, ".work", "alt.mod"))
+		}
+	}
+	args = append(args, "-tags", "verif", "-o", out, "./cmd/impl-run")
+	ctx, cancel := context.WithTimeout(context.Background(), 10*time.Minute)
+	defer cancel()
+	cmd := exec.CommandContext(ctx, "go", args...)
+	cmd.Dir = filepath.Join(root, "harness")
+	cmd.Env = raceEnv()
+	b, err := cmd.CombinedOutput()
+	if err != nil {
+		return out, err.Error() + ": " + string(b)
+	}
+	raceBuilt = true
+	return out, ""
+}
+
+func raceInputs(r *rng.R) []val.V {
+	var ins []val.V
+	for a := uint64(0); a < 2; a++ {
+		for b := uint64(0); b < 2; b++ {
+			ins = append(ins, val.L(val.N(1), val.N(0), val.N(a), val.N(b)))
+		}
+	}
+	for i := 0; i < 40; i++ {
+		ins = append(ins, val.L(val.N(1), val.N(1), val.N(r.U64()>>1), val.Int(1+r.Intn(4)), val.Int(20+r.Intn(150))))
+	}
+	types := []string{"", "x", "X"}
+	for i := 0; i < 300; i++ {
+		l := 2 + r.Intn(25)
+		ops := make([]val.V, 0, l)
+		nsub := 0
+		for j := 0; j < l; j++ {
+			switch x := r.Intn(10); {
+			case x < 3:
+				ops = append(ops, val.L(val.N(0), val.S(types[r.Intn(3)]), val.Int(r.Intn(3))))
+				nsub++
+			case x < 4:
+				ops = append(ops, val.L(val.N(1), val.Int(r.Intn(3))))
+				nsub++
+			case x < 6 && nsub > 0:
+				ops = append(ops, val.L(val.N(2), val.Int(r.Intn(nsub))))
+			default:
+				ops = append(ops, val.L(val.N(3), val.S(types[r.Intn(3)])))
+			}
+		}
+		ins = append(ins, val.L(val.N(0), val.N(0), val.List(ops))) // connected from the start: every op is concurrent with the read loop
+	}
+	return ins
+}
+
+func execCallbacksRace(in val.V) val.V {
+	if os.Getenv("VERIF_RACE_CHILD") == "1" {
+		return val.L(val.N(0))
+	}
+	bin, berr := buildRaceHarness()
+	if berr != "" {
+		fmt.Fprintln(os.Stderr, "race-enabled harness could not be built:", berr)
+		return val.L(val.N(2))
+	}
+	root := raceRoot()
+	inFile := filepath.Join(root, ".work", fmt.Sprintf("race-in.%d.txt", os.Getpid()))
+	var sb strings.Builder
+	for _, v := range raceInputs(rng.New(in.At(1).Num())) {
+		sb.WriteString(val.String(v))
+		sb.WriteByte('\n')
+	}
+	if err := os.WriteFile(inFile, []byte(sb.String()), 0o644); err != nil {
+		return val.L(val.N(2))
+	}
+	defer os.Remove(inFile)
+	ctx, cancel := context.WithTimeout(context.Background(), 5*time.Minute)
+	defer cancel()
+	cmd := exec.CommandContext(ctx, bin, "-replay", inFile, "-out", os.DevNull, "callbacks")
+	cmd.Env = append(os.Environ(), "GORACE=halt_on_error=1 exitcode=66", "VERIF_RACE_CHILD=1")
+	b, err := cmd.CombinedOutput()
+	if err == nil {
+		return val.L(val.N(0))
+	}
+	var ee *exec.ExitError
+	if strings.Contains(string(b), "DATA RACE") || (errors.As(err, &ee) && ee.ExitCode() == 66) {
+		i := strings.Index(string(b), "WARNING: DATA RACE")
+		if i < 0 {
+			i = 0
+		}
+		j := i + 1500
+		if j > len(b) {
+			j = len(b)
+		}
+		fmt.Fprintln(os.Stderr, string(b[i:j]))
+		return val.L(val.N(1))
+	}
+	fmt.Fprintln(os.Stderr, "race-enabled run failed:", err, string(b))
+	return val.L(val.N(2))
 }
 
 // ---- generators -----------------------------------------------------------------
@@ -544,6 +694,13 @@ func genCallbacks(c *Ctx) {
 				c.Emit(val.L(val.N(1), val.N(0), val.N(a), val.N(b)))
 			}
 		}
+	}
+	// the race detector, when this machine has one
+	if _, berr := buildRaceHarness(); berr == "" {
+		c.Count("race-detector:run")
+		c.Emit(val.L(val.N(2), val.N(c.R.U64()>>1)))
+	} else {
+		c.Count("race-detector:unavailable")
 	}
 	storms := 30
 	if c.Thorough {
